@@ -116,7 +116,12 @@ def diffRoutesCore (a b : List Route) : List RLine :=
   let (ls, am) := diffRoutesLoop a b (a.map Route.key)
   ls ++ (a.filter (fun r => r.key ∈ am)).map RLine.del
 
-def diffRoutes (a b : List Route) : List RLine := diffRoutesCore a (sortRoutes b)
+/-- `if seen[r.spec] { continue }`: only the first occurrence of a (dst, hop) in the sorted target counts. -/
+def dedupRoutes : List Route → List RKey → List Route
+  | [], _ => []
+  | r :: rs, seen => if r.key ∈ seen then dedupRoutes rs seen else r :: dedupRoutes rs (r.key :: seen)
+
+def diffRoutes (a b : List Route) : List RLine := diffRoutesCore a (dedupRoutes (sortRoutes b) [])
 
 def printDel (r : Route) : Str := replaceFirst r.orig (s "ip route add ") (s "ip route del ")
 
